@@ -214,6 +214,13 @@ func (r *c09Run) tryNext(i int) error {
 
 func (r *c09Run) do(step bson.D) error {
 	switch asS(getD(step, "kind")) {
+	case "macro":
+		for _, sv := range asA(getD(step, "steps")) {
+			if err := r.do(asD(sv)); err != nil {
+				return fmt.Errorf("%s: %v", show(sv), err)
+			}
+		}
+		return nil
 	case "write":
 		if _, err := r.env.execStep(asD(getD(step, "step"))); err != nil {
 			return err
@@ -375,8 +382,41 @@ func genC09Step(t *rapid.T, r *c09Run, lost bool) bson.D {
 			{Key: "start", Value: start}, {Key: "ref", Value: int32(rapid.SampledFrom([]int{0, 0, 1, 1, 2, 3, 5, 8, 13, 21, 34, 55}).Draw(t, "ref"))}, {Key: "variant", Value: rapid.SampledFrom([]string{"at", "at", "older"}).Draw(t, "variant")}}
 	case k < 93:
 		return bson.D{{Key: "kind", Value: "next"}, {Key: "s", Value: int32(rapid.IntRange(0, 7).Draw(t, "s"))}, {Key: "n", Value: int32(rapid.IntRange(1, 4).Draw(t, "n"))}}
-	case k < 97 || !lost:
+	case k < 96 || !lost:
 		return bson.D{{Key: "kind", Value: "close"}, {Key: "s", Value: int32(rapid.IntRange(0, 7).Draw(t, "s"))}}
+	case k < 98:
+		// a stream consumes the drop of its own collection / database; the
+		// drop event then ages out of the log while other namespaces are
+		// written; the stream still ends with its invalidate event
+		ns := rapid.SampledFrom([]string{"d1.c1", "d1.c2", "d2.c1"}).Draw(t, "mns")
+		other := "d1.c2"
+		if ns == "d1.c2" {
+			other = "d2.c1"
+		}
+		scope := rapid.SampledFrom([]string{"coll", "db"}).Draw(t, "mscope")
+		if scope == "db" {
+			other = map[string]string{"d1": "d2.c1", "d2": "d1.c1"}[ns[:2]]
+		}
+		dropOp := bson.D{{Key: "op", Value: "dropColl"}, {Key: "ns", Value: ns}}
+		if scope == "db" {
+			dropOp = bson.D{{Key: "op", Value: "dropDB"}, {Key: "ns", Value: ns}, {Key: "db", Value: ns[:2]}}
+		}
+		idx := int32(len(r.streams))
+		ins := func(n string, id string) bson.D {
+			return bson.D{{Key: "kind", Value: "write"}, {Key: "step", Value: bson.D{{Key: "op", Value: "insertOne"}, {Key: "ns", Value: n}, {Key: "doc", Value: bson.D{{Key: "_id", Value: id}}}}}}
+		}
+		tag := fmt.Sprintf("m%d-", len(r.streams))
+		return bson.D{{Key: "kind", Value: "macro"}, {Key: "steps", Value: bson.A{
+			bson.D{{Key: "kind", Value: "watch"}, {Key: "scope", Value: scope}, {Key: "ns", Value: ns}, {Key: "start", Value: "now"}, {Key: "ref", Value: int32(0)}, {Key: "variant", Value: "at"}},
+			ins(ns, tag+"a"),
+			bson.D{{Key: "kind", Value: "write"}, {Key: "step", Value: dropOp}},
+			bson.D{{Key: "kind", Value: "next"}, {Key: "s", Value: idx}, {Key: "n", Value: int32(2)}},
+			bson.D{{Key: "kind", Value: "sleep"}},
+			ins(other, tag+"b"),
+			ins(other, tag+"c"),
+			ins(other, tag+"d"),
+			bson.D{{Key: "kind", Value: "next"}, {Key: "s", Value: idx}, {Key: "n", Value: int32(2)}},
+		}}}
 	default:
 		return bson.D{{Key: "kind", Value: "sleep"}}
 	}
